@@ -194,6 +194,12 @@ func ghost_nscans(rs *RetentionScanner) int { panic("ghost") }
 
 // Start: with a retention period <= 0 no scan is ever made and nothing is removed; whenever Start
 // returns the shutdown channel has been closed (so Join returns).
+// The scanner runs with exactly the configured period (a period <= 0 disables it: see Start).
+//@ func NewRetentionScanner
+//@   ensures[configuredPeriod C12] ret != nil && vcFresh(ret) && ret.retentionPeriod == cfg.RetentionPeriod && ret.retentionSleep == cfg.RetentionSleep && ret.ds == ds &&
+//@      ret.retentionShutdown != nil && !ghost_closed(ret.retentionShutdown)
+//@   serves C12
+
 //@ func (*RetentionScanner).Start
 //@   requires rs.ds != nil && rs.retentionShutdown != nil && !ghost_closed(rs.retentionShutdown) && ctx != nil
 //@   modifies *
